@@ -367,11 +367,21 @@ func timeNow(e *Engine, st *State, th *Thread, fn *ssa.Function, args []Val) Val
 	name := fmt.Sprintf("clock_%d", st.clockN)
 	v := tb.Var(name, 64)
 	lo := tb.BV(1<<40, 64)
+	if st.clockLo != nil {
+		lo = st.clockLo
+	}
 	if st.clockLast != nil {
 		lo = st.clockLast
 	}
+	hi := tb.BV(1<<61, 64)
+	if st.clockHi != nil {
+		hi = st.clockHi
+	}
 	st.addPC(tb.Cmp("bvsle", lo, v))
-	st.addPC(tb.Cmp("bvslt", v, tb.BV(1<<61, 64)))
+	if st.clockLo != nil {
+		st.addPC(tb.Cmp("bvsle", st.clockLo, v))
+	}
+	st.addPC(tb.Cmp("bvslt", v, hi))
 	if st.clockFrozen {
 		if st.clockLast != nil {
 			return e.mkTime(st.clockLast)
